@@ -3,6 +3,8 @@ package sim
 import (
 	"bytes"
 	"crypto/ecdsa"
+	"crypto/elliptic"
+	"crypto/sha256"
 	"encoding/hex"
 	"encoding/json"
 	"fmt"
@@ -688,6 +690,69 @@ func (r *txRun) doUnauthorised(f *TxForm) *Violation {
 			}
 			return nil
 		}
+		if f.C%3 == 0 && f.B == 4 {
+			// ... under a multi-signature nobody but the thief made: the aggregate is checked against the SUM
+			// of the listed public keys, so the thief lists a made-up key P' = x*G - P_owner (whose private
+			// key nobody knows; only the address has to match the key) as the initiator's and signs with x
+			victim := Accts[0]
+			pv, err := Crypto.GetEcdsaPublicKeyFromJsonStr(victim.Pub)
+			if err != nil {
+				panic(err)
+			}
+			curve := pv.Curve
+			x := new(big.Int).SetBytes(sha256Sum([]byte(fmt.Sprintf("rogue-x-%d-%d", r.plan.Seed, r.step))))
+			k := new(big.Int).SetBytes(sha256Sum([]byte(fmt.Sprintf("rogue-k-%d-%d", r.plan.Seed, r.step))))
+			xgx, xgy := curve.ScalarBaseMult(x.Bytes())
+			rx, ry := curve.Add(xgx, xgy, pv.X, new(big.Int).Sub(curve.Params().P, pv.Y))
+			rogue := &ecdsa.PublicKey{Curve: curve, X: rx, Y: ry}
+			rogueAddr, err := Crypto.GetAddressFromPublicKey(rogue)
+			if err != nil {
+				panic(err)
+			}
+			roguePub := fmt.Sprintf(`{"Curvname":"P-256","X":%s,"Y":%s}`, rx, ry)
+			tx, err := BuildTx(&TxSpec{From: thief, Version: int32(f.Ver), Inputs: []UtxoRef{u}, Outs: []OutSpec{{To: thief.Addr, Amount: u.Amount}}, NoChange: true, AuthRequire: []string{victim.Addr}, Signers: []*Acct{thief}})
+			if err != nil {
+				return nil
+			}
+			tx.Initiator = rogueAddr
+			tx.InitiatorSigns, tx.AuthRequireSigns = nil, nil
+			dg, err := txhash.MakeTxDigestHash(tx)
+			if err != nil {
+				return nil
+			}
+			keys := []*ecdsa.PublicKey{rogue, pv}
+			c, err := Crypto.GetSharedPublicKeyForPublicKeys(keys)
+			if err != nil {
+				panic(err)
+			}
+			kgx, kgy := curve.ScalarBaseMult(k.Bytes())
+			rr := elliptic.Marshal(curve, kgx, kgy)
+			e := new(big.Int).SetBytes(sha256Sum(bytes.Join([][]byte{c, rr, dg}, nil)))
+			sv := new(big.Int).Add(k, new(big.Int).Mul(e, x))
+			sig, err := Crypto.GenerateMultiSignSignature(sv.Bytes(), rr)
+			if err != nil {
+				panic(err)
+			}
+			if ok, err := Crypto.VerifyXuperSignature(keys, sig, dg); !ok || err != nil {
+				panic(fmt.Sprintf("c07: the rogue-key aggregate does not verify under the library: %v", err))
+			}
+			tx.XuperSign = &lpb.XuperSignature{PublicKeys: [][]byte{[]byte(roguePub), []byte(victim.Pub)}, Signature: sig}
+			if tx.Txid, err = txhash.MakeTransactionID(tx); err != nil {
+				return nil
+			}
+			r.rc.St.Probes["unauthorised-spend-tried"]++
+			r.rc.St.Probes["rogue-key-aggregate-tried"]++
+			tw, err := n.Twin()
+			if err != nil {
+				panic(err)
+			}
+			defer tw.Drop()
+			if tw.Chain.SubmitTx(tw.BaseCtx(), CloneTx(tx)) == nil {
+				r.rc.St.Probes["known-rogue-key-aggregate"]++
+				r.notePending(r.viol("rogue-key-aggregate-admitted", "a spend of another address's output under a multi-signature the owner took no part in was admitted: the initiator's listed public key is x*G minus the owner's key, so the sum the aggregate is checked against is x*G and x signs alone | %s", descTx(tx)))
+			}
+			return nil
+		}
 		if f.A%2 == 0 && f.C%3 == 2 {
 			// ... with the owner merely LISTED: initiator thief, owner named as required signer, and one
 			// aggregated-signature field holding both public keys but only the thief's plain signature
@@ -919,4 +984,9 @@ func (r *txRun) doForm(f *TxForm) *Violation {
 		}
 	}
 	return nil
+}
+
+func sha256Sum(b []byte) []byte {
+	h := sha256.Sum256(b)
+	return h[:]
 }
